@@ -181,6 +181,16 @@ def catalogue():
                             "props": m.get("detected_by") or [m["property"]],
                             "expect": "fire" if m.get("detected_by") else "miss-ok",
                             "why": m.get("summary", "")})
+    refs = VERIF / "refactors"
+    if refs.is_dir():
+        for d in sorted(refs.iterdir()):
+            patch = d / "patch.diff"
+            if patch.exists():
+                why = ""
+                if (d / "meta.json").exists():
+                    why = json.loads((d / "meta.json").read_text()).get("summary", "")
+                out.append({"id": f"refactor-{d.name}", "kind": "patch", "patch": str(patch), "props": [],
+                            "expect": "silent", "why": why[:160]})
     return out
 
 
